@@ -5,7 +5,7 @@ CONSTANTS
   MaxNames = 4
   OptChoices = {}
   RRNames = {"text"}
-  Docs = {"D1", "D2", "D3"}
+  Docs = {"D1", "D2", "D3", "D4"}
   Defines <- MCDefines
   FaultSites = {"core", "block", "inline", "inline2", "render", "highlight"}
   MaxCtx = 100
